@@ -19,7 +19,9 @@ RULE = ("(a) programs drawn by G-PROG, (b) the same with unsupported or illegall
         "injected by the C08 injector at a seeded subset of positions, (c) every module of the "
         "standard library found in the image after stripping statements of unsupported kinds "
         "(try, raise, with, assert, del, match, type alias, async forms, star imports, functions "
-        "containing yield/await) - each converted under all 8 configurations. A case is "
+        "containing yield/await) - each converted under all 8 configurations; (d) the G-NEST sweep of "
+        "construct interactions (every construct inside / next to every other one, about 17 000 programs; "
+        "quick: 2 configurations by rotation, thorough: all 8). A case is "
         "non-trivial when the conversion RETURNED (was not rejected) and the source has >= 5 "
         "statements; distinct by (source, configuration). returned/rejected counts are reported.")
 
@@ -240,6 +242,23 @@ def _pool_shard(item):
     return part
 
 
+def _nest_shard(item):
+    """G-NEST interaction programs (gen/nest.py): each construct inside / next to every other"""
+    from ..gen import nest
+    idx, nshards, all8 = item
+    part = new_part()
+    cases = list(nest.triples()) + list(nest.item_pairs()) + list(nest.deep())
+    for k in range(idx, len(cases), nshards):
+        src = nest.build(*cases[k])
+        if src is None:
+            continue
+        cfgs = env.ALL_CFGS if all8 else [env.ALL_CFGS[k % 8], env.ALL_CFGS[(k + 3) % 8]]
+        v = check_source(part, src, cfgs, "interaction")
+        if v and len(part["violations"]) < 3:
+            part["violations"].append(v)
+    return part
+
+
 def run(report):
     quick = report.tier == "quick"
     report.rule = RULE
@@ -267,6 +286,7 @@ def run(report):
     report.extra["other_hosts"] = others
     per = 200 if quick else 3000
     items += [(_gen_shard, (env.sub_seed(report.seed, "C02", i), per, True, switches)) for i in range(env.NPROC)]
+    items += [(_nest_shard, (i, env.NPROC * 2, not quick)) for i in range(env.NPROC * 2)]
     for part in env.pmap(_call, items):
         report.absorb(part)
     report.extra["returned"] = report.classes.get("returned", 0)
